@@ -641,7 +641,7 @@ def inner_paths(ps, nframes):
 
 def c03_cases(rng, tier):
     out = []
-    n = 12000 if tier == 'quick' else 300000
+    n = 12000 if tier == 'quick' else 120000
     tries = 0
     while len(out) < n and tries < n * 5:
         tries += 1
@@ -690,7 +690,7 @@ def c03_oracle(c, impl):
 
 def c04_cases(rng, tier):
     out = []
-    n = 5000 if tier == 'quick' else 150000
+    n = 5000 if tier == 'quick' else 60000
     tries = 0
     while len(out) < n and tries < n * 5:
         tries += 1
@@ -703,7 +703,7 @@ def c04_cases(rng, tier):
         probes = [rng.choice([0, 1, -1, 7, -7, 12, 100, -100, 99999, -99999, 123456789, rng.randint(-2000, 2000)]) for _ in range(4)]
         out.append(case('seq', [s, st] + [str(x) for x in probes], '%r style=%d probes=%s' % (s, st, probes), 'sequence',
                         dict(kind='seq', d=d, b=b, r=r, frames=frames, p=p, e=e, st=st, s=s, probes=probes)))
-    m = 5000 if tier == 'quick' else 150000
+    m = 5000 if tier == 'quick' else 60000
     for _ in range(m):
         d = gens.directory(rng)
         b = gens.basename(rng)
